@@ -1,5 +1,4 @@
 import Secp.Hand.Field
-import Secp.Hand.Scalar
 /-!
 # Ties between the regenerated method wrappers of `internal/field`, `internal/scalar` and the operations record
 
@@ -22,7 +21,5 @@ theorem cmove_tie (c : Nat) (u v : L4) : FiatField.elCMove c u v = Hand.limbOps.
 theorem isZero_tie (e : L4) : FiatField.elIsZero e = Hand.limbOps.isZero e := rfl
 theorem equals_tie (e u : L4) : FiatField.equals e u = Hand.limbOps.equals e u := rfl
 
-/-- `scalar.CMove` is `Selectznz`, which is what the model of `Scalar.CSelect` calls -/
-theorem scalar_cmove_tie (c : Nat) (u v : L4) : FiatScalar.cMove c u v = FiatScalar.selectznz c u v := rfl
 
 end WrapperTies
